@@ -14,6 +14,7 @@ use std::cell::RefCell;
 use vcommon::{Args, Hasher64, Report, Rng};
 
 const K_PROBE: u16 = 0x4000; // messages sent from hooks carry this bit in `kind`
+const K_NOISE: u16 = 0x2000; // delayed filler in front of a burst, ignored by the sink
 
 #[derive(Debug, Clone, Copy, Serialize, Deserialize, PartialEq)]
 pub enum ElKind {
@@ -45,6 +46,10 @@ pub struct Dut {
     /// Module::stack builds a stack of its own elements and appends it as a whole (instead of element by element)
     #[serde(default)]
     pub append_at_once: bool,
+    /// on this message id the handler first sends a delayed message and then a burst of this many immediate ones
+    /// (what an event buffers is neither sorted nor short)
+    #[serde(default)]
+    pub burst_on: Option<(u16, usize)>,
 }
 
 #[derive(Debug, Clone, Serialize, Deserialize, PartialEq)]
@@ -201,6 +206,14 @@ impl Module for DutModule {
             emit_probe(self.idx);
             emit_probe(self.idx);
         }
+        if let Some((id, n)) = self.dut.burst_on {
+            if id == h.id {
+                send_in(Message::default().kind(K_NOISE), "probe", Duration::from_nanos(7_000_000));
+                for _ in 0..n {
+                    emit_probe(self.idx);
+                }
+            }
+        }
         if self.dut.restart_on == Some(h.id) {
             current().shutdow_and_restart_in(Duration::from_nanos(1_000));
         }
@@ -218,6 +231,9 @@ impl Module for DutModule {
 struct Sink;
 impl Module for Sink {
     fn handle_message(&mut self, msg: Message) {
+        if msg.header().kind == K_NOISE {
+            return;
+        }
         let gate = msg.header().last_gate.as_ref().map_or(String::new(), |g| g.name().to_string());
         let dut: usize = gate.trim_start_matches("from").parse().unwrap_or(usize::MAX);
         log(Entry { dut, hook: Hook::Probe, idx: msg.header().id as usize, id: 0, tags: 0, passed: true });
@@ -544,6 +560,7 @@ pub fn gen_case(rng: &mut Rng) -> Case {
                 handler_sends: rng.chance(1, 2),
                 end_err: rng.chance(1, 6),
                 append_at_once: rng.chance(1, 2),
+                burst_on: if rng.chance(1, 6) { Some((rng.below(m as u64) as u16, 33 + rng.usize_below(30))) } else { None },
             }
         })
         .collect();
@@ -563,7 +580,7 @@ pub fn case_json(case: &Case) -> Value {
 pub fn cmd(args: &Args) -> Report {
     let mut rep = Report::new("C14");
     let mut rng = Rng::new(args.stream_seed("c14"));
-    let cases = args.cases(24_000, 500_000);
+    let cases = args.cases(480_000, 6_000_000);
     for i in 0..cases {
         let case = gen_case(&mut rng);
         vcommon::mark_case(&format!("c14:{}:{}:{}", args.seed, args.shard, i));
@@ -583,6 +600,9 @@ pub fn cmd(args: &Args) -> Report {
         rep.count(&format!("cases_with_stack_of_{k_max}"), 1);
         if !case.global.is_empty() && case.duts.iter().any(|d| !d.own.is_empty()) {
             rep.count("cases_with_global_and_module_stack", 1);
+        }
+        if case.duts.iter().any(|d| d.burst_on.is_some()) {
+            rep.count("cases_with_a_burst_of_more_than_32_messages_in_one_event", 1);
         }
         if case.duts.iter().any(|d| d.append_at_once && !case.global.is_empty() && d.own.len() > case.global.len()) {
             rep.count("cases_appending_a_longer_module_stack_at_once", 1);
